@@ -21,6 +21,7 @@ from liquer.state_types import state_types_registry
 from liquer.state import State
 from liquer.parser import all_splits, encode, decode
 import logging
+import threading
 import traceback
 import base64
 import numpy as np
@@ -616,7 +617,8 @@ class FileCache(CacheMixin):
 
     def _write_atomically(self, path, b):
         "Write to a temporary file and rename it, so that a reader never sees a partial file"
-        tmp = f"{path}.tmp{os.getpid()}"
+        # the temporary name is private to the writer: two threads of one process may store the same key at the same time
+        tmp = f"{path}.tmp{os.getpid()}_{threading.get_ident()}"
         with open(tmp, "wb") as f:
             f.write(b)
         os.replace(tmp, path)
